@@ -2,6 +2,8 @@ package main
 
 import (
 	"fmt"
+	"sync"
+	"time"
 )
 
 // ---------- generator of decoded feed messages ----------
@@ -27,7 +29,47 @@ func genStartTime(r *Rng) string {
 	}
 }
 
+// dstDays lists, per named zone, the civil dates 1990-2034 on which the zone's UTC offset changes
+// (computed from the zone database the implementation itself uses).
+var (
+	dstDaysOnce sync.Once
+	dstDays     []string
+)
+
+func dstTransitionDays() []string {
+	dstDaysOnce.Do(func() {
+		for _, z := range allZones {
+			if !(z[0] >= 'A' && z[0] <= 'Z') || z == "UTC" {
+				continue
+			}
+			loc, err := time.LoadLocation(z)
+			if err != nil {
+				continue
+			}
+			for y := 1990; y < 2035; y++ {
+				t := time.Date(y, 1, 1, 0, 0, 0, 0, loc)
+				for t.Year() == y {
+					n := time.Date(y, t.Month(), t.Day()+1, 0, 0, 0, 0, loc)
+					_, o1 := t.Zone()
+					_, o2 := n.Zone()
+					if o1 != o2 {
+						dstDays = append(dstDays, t.Format("20060102"))
+					}
+					t = n
+				}
+			}
+		}
+	})
+	return dstDays
+}
+
 func genStartDate(r *Rng, named bool) string {
+	if named && r.P(1, 3) {
+		// a day on which some generated zone changes its offset (it may or may not be the configured one)
+		if ds := dstTransitionDays(); len(ds) > 0 {
+			return r.Pick(ds)
+		}
+	}
 	switch r.Intn(10) {
 	case 0:
 		return r.Pick([]string{"2024-01-01", "202401", "", "2024010a", "202401011"})
